@@ -177,10 +177,7 @@ def checkLet (g : RGlobals) (b : LetB) (s : RS) : RS :=
   | (vs, none) => s.add vs
   | (vs, some t) =>
     let s := s.add vs
-    let bad := match b.ty with
-      | some a => decide (t ≠ a.toTy)
-      | none => false
-    if bad then s.viol "B7" .wrongLetType b.name
+    if letTypeBad b.ty t then s.viol "B7" .wrongLetType b.name
     else { s with scope := s.scope.declare b.name t b.mutable }
 
 def checkBind (g : RGlobals) (b : Bind) (s : RS) : RS :=
